@@ -4,6 +4,7 @@ package main
 
 import (
 	"fmt"
+	"os"
 	"runtime"
 	"go/token"
 	"go/types"
@@ -43,6 +44,7 @@ type Job struct {
 	Trusted    []string
 	Err        string // unsupported construct / contract error
 	GenSecs    float64
+	Stats      string
 }
 
 func jobName(fn *ssa.Function) string {
@@ -92,7 +94,7 @@ func (p *Program) generateLemma(j *Job, x *Exec) {
 
 // generate runs the symbolic execution and fills in obligations.
 func (p *Program) generate(j *Job) {
-	x := &Exec{prog: p, ctx: newCtx(), job: j, counters: map[string]int{}, typed: map[[2]int]bool{}, unmod: map[string]bool{}, trusted: map[string]bool{}}
+	x := &Exec{prog: p, ctx: newCtx(), job: j, counters: map[string]int{}, typed: map[[2]int]bool{}, unmod: map[string]bool{}, trusted: map[string]bool{}, qseen: map[[2]int]bool{}}
 	defer func() {
 		if r := recover(); r != nil {
 			if u, ok := r.(unsupported); ok {
@@ -105,6 +107,12 @@ func (p *Program) generate(j *Job) {
 		}
 		j.Obls = x.obls
 		j.Facts = x.ctx.facts
+		j.Stats = fmt.Sprintf("%d quantified facts, %d index terms, %d instances", len(x.qfacts), len(x.interest), x.ninst)
+		if os.Getenv("GOVC_DEBUG") != "" {
+			for _, e := range x.interest {
+				fmt.Fprintln(os.Stderr, "DEBUG interest", truncate(e.String(), 200))
+			}
+		}
 		j.Inputs = x.inputs
 		for k := range x.unmod {
 			j.Unmodelled = append(j.Unmodelled, k)
@@ -148,7 +156,7 @@ func (p *Program) generate(j *Job) {
 	if c != nil {
 		c.Bound = true
 		for _, r := range x.evalClauses(fr, st, c.clauses("requires", 0), nil, "requires") {
-			x.ctx.assume(st, r.t)
+			x.assumeFact(st, r.t)
 		}
 		// vacuity guard: the precondition must be satisfiable
 		x.obls = append(x.obls, &Obligation{Name: j.Name + "#pre-sat", Kind: "pre-sat", Job: j.Name, NFact: len(x.ctx.facts), PC: True, Goal: False, Note: "precondition is satisfiable (expected: sat)"})
